@@ -19,7 +19,7 @@ CHECKS = {
    technique="symbolic execution of go/ssa with DFS over free choices (bounded model checking), native replay",
    design="5/C19"),
  "C20": dict(
-   text="Bounded model checking of hashingAlgo.CalculateWithContext/Calculate/CalculateStringHash with the whole safeio/contextio/io.Copy chain executed from real source: histories of 1..2 (thorough 3) calculations on one hasher, each with 0..2 (3) symbolic content bytes, every chunking of the reader, and outcome success / read failure at byte k / cancellation at byte k; z3 decides that every successful calculation's digest is the digest of exactly its own content whatever preceded it.",
+   text="Bounded model checking of hashingAlgo.CalculateWithContext/Calculate/CalculateStringHash with the whole safeio/contextio/io.Copy chain executed from real source: histories of 1..2 (thorough 3) calculations on one hasher, each with 0..2 (3) symbolic content bytes, every chunking of the reader, and outcome success / read failure at byte k / cancellation at byte k / a string hash through CalculateStringHash on the same hasher; z3 decides that every successful calculation's digest is the digest of exactly its own content whatever preceded it.",
    note="The compression function is abstracted by an injective recording hash.Hash double (digest = bytes since last Reset), which makes the claim algorithm-independent; the real MD5/SHA/BLAKE2/xxhash/murmur code is not encoded.",
    technique="symbolic execution of go/ssa + SMT (QF_BV), native replay",
    design="5/C20"),
@@ -62,7 +62,7 @@ CHECKS = {
    technique="symbolic execution of go/ssa (real archive/zip, flate, zipfs) with DFS over tree shapes, native replay",
    design="5/C07"),
  "C08": dict(
-   text="Bounded exhaustive exploration of every exclusion-aware operation (walk, ls, recursive ls, tree listing, sub-directories, copy, clean, remove; real regexp package interpreted) over EVERY tree of depth <= 2 on names {a,b} (thorough {a,b,ab}) and 0..1 (2) patterns from {a,b,ab,a.*,.*b,[ab],a.b,b.a} (the last two could only match across a path separator), against the statement's two-sided reference (full match of a component => protected with everything beneath; no component containing a match => must be processed); invalid patterns rejected with the 'invalid' kind before anything is touched; pattern pairs with inline flags or unbalanced groups behave as the two patterns separately (no leakage between patterns). Known-finding regions: protection lost at depth >= 2 in clean/remove; invalid pattern ignored on an empty directory.",
+   text="Bounded exhaustive exploration of every exclusion-aware operation (walk, ls, recursive ls, tree listing, sub-directories, copy, clean, remove; real regexp package interpreted) over EVERY tree of depth <= 2 on names {a,b} (thorough {a,b,ab}) and 0..1 (2) patterns from {a,b,ab,a.*,.*b,[ab],a.b,b.a} (the last two could only match across a path separator), against the statement's two-sided reference (full match of a component => protected with everything beneath; no component containing a match => must be processed); invalid patterns rejected with the 'invalid' kind before anything is touched; pattern pairs with inline flags or unbalanced groups behave as the two patterns separately (no leakage between patterns). Known-finding regions: protection lost at depth >= 2 in clean/remove; invalid pattern ignored on an empty directory; copy / pattern-aware removal matching a pattern across a path separator.",
    note="Zip with exclusions and patterns beyond the fixed set are outside; in-memory backend only.",
    technique="symbolic execution of go/ssa with DFS over trees x patterns x operations (bounded model checking), native replay",
    design="5/C08"),
